@@ -808,8 +808,20 @@ def extra_C03(rng, tier, st, cov):
     return _engine_extra('C03')(rng, tier, st, cov) + _locale_extra('C03')(rng, tier, st, cov)
 def extra_C05(rng, tier, st, cov):
     return _engine_extra('C05')(rng, tier, st, cov) + _locale_extra('C05')(rng, tier, st, cov)
+def _mpi_callback_reuse(rng, tier, st, cov):
+    """C++ only (shim): one mpi_callback object asked on two communicators in which the process has different ranks"""
+    out = []
+    for t in ('d', 'f', 'l'):
+        line = dump([1, t, 'mpicbreuse', [rng.choice([1, 2, 5])], []])
+        rc, o = run_one(st['cxx_exe'], line, dict(os.environ, VERIF_TMP=os.path.join(__import__('tie').BUILD, 'tmp')))
+        if rc != 0 or not o or not isinstance(o[1], list) or o[1][0] != 'ok':
+            out.append(viol('one mpi_callback object used on two communicators: as rank 0 of its group it wrote the checkpoint %s time(s), as a non-root rank of the world %s time(s) (expected 1 and 0)' % (
+                (o[1][1], o[1][2]) if o and isinstance(o[1], list) and len(o[1]) > 2 else ('?', '?')), [], {'spec': line}))
+    cov.setdefault('extra', {})['mpi_callback_object_reused'] = {'runs': 3}
+    return out
+
 def extra_C20(rng, tier, st, cov):
-    return _locale_extra('C20')(rng, tier, st, cov) + _concurrent_runs(rng, tier, st, cov)
+    return _locale_extra('C20')(rng, tier, st, cov) + _concurrent_runs(rng, tier, st, cov) + _mpi_callback_reuse(rng, tier, st, cov)
 def _iteration_api(rng, tier, st, cov):
     """C++ only: plain_iteration / vegas_iteration / multi_channel_iteration called directly with the caller's generator: while call k is
     evaluated, and after an exception thrown in call k, the generator has advanced by exactly (k+1) x d (d+1) canonical numbers"""
